@@ -17,8 +17,10 @@ func init() {
 			"(R4) the option layers are written only by the four setter sites, under the option lock, a non-nil value only as validateValue's result on its success edge, every successful return is preceded by signalChanges after the store, and signalChanges invalidates the old flag and installs the new one under one write-lock section; " +
 			"(R5) getter <-> OptType constant <-> valueCache field tables agree (12 getters); " +
 			"(R6) SaveConfig writes, for every registered option, its user-set value exactly when one is set (no other condition decides membership in the saved map), keyed by the option key, and hands that map to the encoder whose output is written to the config file. " +
+			"(R7) lock pairing over the functions of package(s) config: " + lockRuleText + ". " +
 			"NOT decided: JSON encode->decode equality of values, semantics of validation functions/regexes, real setter/getter interleavings (R2-R4 are the protocol's necessary order/lock facts).",
-		Rules: []ruleFn{c04R1, c04R2, c04R3, c04R4, c04R5, c04R6},
+		Rules: []ruleFn{c04R1, c04R2, c04R3, c04R4, c04R5, c04R6,
+			lockRuleFor("C04-R7", 20, []string{"config"}, []string{}, map[string]string{})},
 	})
 }
 
